@@ -596,7 +596,8 @@ func init() {
 		Rule: "seeded runs: 1..3 servers, 1..32 regions, 1..128 concurrent first users released by a barrier with random keys, " +
 			"optionally CacheRegions (all regions connected at once) before or during the burst, then 0..20 later sequential discoveries; fault in {none, reset of all connections during the burst, abort exception " +
 			"closing the connection, first dial refused, read error on the first connection, in-place split of a region that is " +
-			"alone on its server, first probe of a region answered 'region opening' (in both no connection fails)}. The client-side dial log must show " +
+			"alone on its server, first probe of a region answered 'region opening' (in both no connection fails), server-class exception on one action (optionally after a region-level not-serving), " +
+			"a slow reply outliving the call's deadline, a merge found by a cache miss, one call answered not-serving five times, a first dial slower than the lookup timeout that ignores its context}. The client-side dial log must show " +
 			"one dial per address in fault-free runs, every re-dial only after all earlier connections to that address were closed " +
 			"by the client, no connection closed by the client unless an operation on it failed or the server killed it / answered it with a fault, and at most one open connection per address at quiescence. distinct = configuration+seed; non-trivial " +
 			"= more than one region or more than one first user",
